@@ -310,7 +310,7 @@ def run_unit(spec, unit, scratch, tier="quick", trace=False):
     res["failed"] = failed
     res["unwind_failed"] = unwind_fail
     # loop-contract presence guard
-    need = contracted_loops(spec, unit, scratch)
+    need = [] if unit.get("no_loop_contracts") else contracted_loops(spec, unit, scratch)
     steps = [n for n in names if "loop_invariant_step" in n]
     # a `for (;;)` head carries no source location in goto-cc output: DFCC then
     # leaves that loop's >= 4 assertions (base, assigns, step, step unwinding)
